@@ -101,7 +101,7 @@ def _worker(args):
     stack = list(prefixes)
     t0 = time.time()
     n = 0
-    while stack and n < chunk and time.time() - t0 < 20 and len(res.violations) < vcap and not res.unsupported:
+    while stack and n < chunk and time.time() - t0 < 6 and len(res.violations) < vcap and not res.unsupported:
         p = stack.pop()
         stack.extend(run_one(harness, p, res, interp, want_sample=(n % 7 == 0)))
         n += 1
@@ -142,7 +142,9 @@ def explore(harness, interp=None, workers=None, time_cap=None, vcap=20, chunk=64
                 while work and len(pending) < workers * 2:
                     k = max(1, min(len(work) // max(1, (workers * 2 - len(pending))), 8))
                     batch = [work.pop() for _ in range(min(k, len(work)))]
-                    pending.append(pool.apply_async(_worker, ((batch, chunk, vcap),)))
+                    # while there is little work to share, return alternatives to the master after every few paths
+                    starving = len(work) + len(pending) < workers * 3
+                    pending.append(pool.apply_async(_worker, ((batch, 2 if starving else chunk, vcap),)))
                 done = [p for p in pending if p.ready()]
                 if not done:
                     time.sleep(0.005)
